@@ -108,6 +108,7 @@ func (m *zzRecMon) ofSource(p, src string) bool {
 		return false
 	}
 	sep := string(os.PathSeparator)
+	src = strings.ReplaceAll(src, "/", "--") // the directory name of a multi-level source
 	return strings.Contains(p, sep+src+sep) || strings.HasSuffix(p, sep+src)
 }
 
@@ -152,6 +153,9 @@ func (m *zzRecMon) doQuick(r *zzReq) int {
 	_, _ = io.Copy(io.Discard, resp.Body)
 	return resp.StatusCode
 }
+
+// zzRecPrefix is put before the names of the sources whose recovery is watched
+var zzRecPrefix = ""
 
 var zzRecRoutes = []string{"data", "data-recovery", "validate", "partials"}
 
@@ -208,7 +212,7 @@ func (m *zzRecMon) before(ev *vfs.Event) error {
 // mutating file-system step and moves what it left behind into the directories
 // the server uses for the given source.
 func (m *zzRecMon) zzPlant(rng *rand.Rand, work, src string, sc *zzRecScenario) {
-	scratch := filepath.Join(work, "scratch-"+src)
+	scratch := filepath.Join(work, "scratch-"+strings.ReplaceAll(src, "/", "--"))
 	sDir, fDir, lDir := filepath.Join(scratch, "stage"), filepath.Join(scratch, "final"), filepath.Join(scratch, "logs")
 	for _, d := range []string{sDir, fDir, lDir} {
 		_ = os.MkdirAll(d, 0o755)
@@ -420,17 +424,17 @@ func zzRecNew(e *zzEnv, rng *rand.Rand, work string) *zzRecMon {
 	m.dom = &vfs.Domain{Root: e.recv + string(os.PathSeparator)}
 	m.dom.Before = m.before
 	vfs.Register(m.dom)
-	sc := &zzRecScenario{Kind: "startup", Source: "rec0", Statuses: map[int]int{}}
-	m.zzPlant(rng, work, "rec0", sc)
+	sc := &zzRecScenario{Kind: "startup", Source: zzRecPrefix + "rec0", Statuses: map[int]int{}}
+	m.zzPlant(rng, work, zzRecPrefix+"rec0", sc)
 	m.sc = sc
-	m.armed.Store("rec0")
+	m.armed.Store(zzRecPrefix + "rec0")
 	return m
 }
 
 // restart scenarios through the internal route
 func (m *zzRecMon) restarts(rng *rand.Rand, work string, n int) {
 	for j := 1; j <= n; j++ {
-		src := "rec" + strconv.Itoa(j)
+		src := zzRecPrefix + "rec" + strconv.Itoa(j)
 		sc := &zzRecScenario{Kind: "restart", Source: src, Statuses: map[int]int{}}
 		m.zzPlant(rng, work, src, sc)
 		m.mu.Lock()
